@@ -9,6 +9,7 @@ import (
 	hpke "github.com/cisco/go-hpke"
 
 	"verifharness/internal/core"
+	"verifharness/internal/ref"
 )
 
 // Structure-aware hostile encodings: the framing is well-formed (lengths are
@@ -135,6 +136,12 @@ func rebuildT3Request(r *core.Rand, honest []byte, nk *nameKeyInfo) [][]byte {
 	for _, k := range hostileKeyEncodings(r, p.RequestKey) {
 		if len(k) == 49 {
 			out = append(out, t3Request(k, p.NameKeyID, p.Ciphertext, p.Signature))
+			// and sealed FOR that key (AAD carries the hostile bytes), so that decryption succeeds and the key is decoded after it
+			if nk != nil {
+				if ct, _, err := nk.seal(r, k, t3Inner(7, r.Bytes(256), refPadOrigin("origin.example"))); err == nil {
+					out = append(out, t3Request(k, p.NameKeyID, ct, p.Signature), t3Request(k, p.NameKeyID, ct, r.Bytes(96)))
+				}
+			}
 		}
 	}
 	return out
@@ -262,4 +269,87 @@ func rebuildT3Response(r *core.Rand, t *t3ResponseSealer, good, modulus []byte) 
 		out = append(out, t.seal(r.Bytes(16), pt))
 	}
 	return out
+}
+
+// rebuildTokenKeyDER: SubjectPublicKeyInfo structures whose framing is well-formed DER and whose content is hostile:
+// empty / one-byte / odd BIT STRINGs, every unused-bits count (also with the key stored shifted accordingly), empty
+// or wrong-typed inner structures, empty / negative / zero / huge INTEGERs, missing or extra elements.
+func rebuildTokenKeyDER(r *core.Rand, n *big.Int, e int, pssAlg, rsaAlg []byte) [][]byte {
+	seq := func(parts ...[]byte) []byte {
+		var body []byte
+		for _, p := range parts {
+			body = append(body, p...)
+		}
+		return tlv(0x30, body, 0)
+	}
+	big2 := func(tag byte, body []byte) []byte {
+		// DER length for bodies up to 65535 octets
+		return tlv(tag, body, 0)
+	}
+	rsaKey := func(nb, eb []byte) []byte { return seq(big2(2, nb), big2(2, eb)) }
+	nb := derInt(n)
+	eb := derInt(big.NewInt(int64(e)))
+	good := rsaKey(nb, eb)
+	bitstr := func(unused byte, content []byte) []byte { return big2(3, append([]byte{unused}, content...)) }
+	var out [][]byte
+	for _, alg := range [][]byte{pssAlg, rsaAlg} {
+		spki := func(bits []byte) []byte { return seq(alg, bits) }
+		out = append(out,
+			spki(big2(3, nil)),               // empty BIT STRING (no unused-bits octet)
+			spki(big2(3, []byte{0})),         // unused-bits octet only
+			spki(big2(3, []byte{7})),         // unused bits without content
+			spki(bitstr(0, []byte{0x30})),    // one content byte
+			spki(bitstr(0, []byte{0x30, 0})), // empty inner SEQUENCE
+			spki(bitstr(0, seq())),
+			spki(bitstr(0, seq(big2(2, nb)))),                           // exponent missing
+			spki(bitstr(0, seq(big2(2, nb), big2(2, eb), big2(2, eb)))), // extra element
+			spki(bitstr(0, rsaKey(nil, eb))),                            // empty INTEGER
+			spki(bitstr(0, rsaKey(nb, nil))),
+			spki(bitstr(0, rsaKey([]byte{0}, eb))),                     // modulus zero
+			spki(bitstr(0, rsaKey(nb, []byte{0}))),                     // exponent zero
+			spki(bitstr(0, rsaKey(append([]byte{0xff}, nb...), eb))),   // negative modulus
+			spki(bitstr(0, rsaKey(nb, []byte{0xff, 0xff}))),            // negative exponent
+			spki(bitstr(0, rsaKey(nb, bytes.Repeat([]byte{0x7f}, 9)))), // exponent beyond 64 bits
+			spki(bitstr(0, rsaKey(nb, bytes.Repeat([]byte{0x7f}, 300)))),
+			spki(bitstr(0, big2(4, good))),            // OCTET STRING instead of SEQUENCE
+			spki(big2(4, append([]byte{0}, good...))), // wrong outer tag for the key
+			seq(alg),                    // key missing
+			seq(bitstr(0, good)),        // algorithm missing
+			seq(seq(), bitstr(0, good)), // empty algorithm
+			seq(alg, bitstr(0, good), bitstr(0, good)),    // two keys
+			tlv(0x30, append(alg, bitstr(0, good)...), 3), // indefinite length
+		)
+		// every unused-bits count: the same content with the count set, and the key stored shifted left by that many bits
+		for u := byte(1); u <= 8; u++ {
+			out = append(out, spki(bitstr(u, good)))
+			sh := make([]byte, len(good)+1)
+			var carry byte
+			for i := len(good) - 1; i >= 0; i-- {
+				sh[i+1] = good[i]<<(u%8) | carry
+				carry = good[i] >> (8 - u%8)
+			}
+			sh[0] = carry
+			if u < 8 {
+				out = append(out, spki(bitstr(u, sh[1:])), spki(bitstr(u, sh)))
+			}
+		}
+	}
+	// the empty structures of the smallest sizes
+	out = append(out, []byte{0x30, 0x04, 0x30, 0x00, 0x03, 0x00}, []byte{0x30, 0x00}, []byte{0x30, 0x02, 0x30, 0x00}, []byte{0x30, 0x05, 0x30, 0x00, 0x03, 0x01, 0x00})
+	return out
+}
+
+// spkiAlgs cuts the AlgorithmIdentifier out of the reference encodings of a small key.
+func spkiAlgs() (pss, rsaEnc []byte) {
+	cut := func(der []byte) []byte {
+		// outer SEQUENCE header, then the AlgorithmIdentifier TLV
+		i := 2
+		if der[1]&0x80 != 0 {
+			i = 2 + int(der[1]&0x7f)
+		}
+		l := int(der[i+1])
+		return clone(der[i : i+2+l])
+	}
+	n := new(big.Int).Lsh(big.NewInt(0xc5), 56)
+	return cut(ref.SPKIRSAPSS(n, 3)), cut(ref.SPKIRSAEncryption(n, 3))
 }
